@@ -14,7 +14,7 @@ pub fn spec() -> PropSpec {
     PropSpec {
         id: "C12",
         level: "exploration",
-        rule: "generated schedules of frames and silences for 2-6 aircraft (and 'crowd' schedules with 15-40 aircraft): silences (millisecond resolution) drawn from {0, 1 s, d-2 s, d-1 s, d-0.6 s, d-0.35 s, d, d+1 ms, d+0.4 s, d+1 s, 2d}, delete_after d in {1,5,60,600}, every one of the nine formats as the refreshing frame, -U on/off, optional -f (excluded frames must neither refresh nor count). Maximal runs of frames are one reader run each; a silence is simulated by shifting every stored time stamp. History invariant after every segment: (i) heard < d whole seconds ago => row present; (ii) every aircraft heard in the segment has a last-contact stamp not older than the segment start; (iii) silent >= d, not heard in a segment with >= 12 accepted frames => absent afterwards; (iv) a row re-created after >= 12 accepted frames of the segment preceded the aircraft's first frame equals (wall-clock stamps excluded) the row the same frames create in an empty table; (v) row count <= aircraft heard within d + 12. Non-trivial = schedule with >= 1 expiry and >= 1 survival across a sweep; distinct by hash",
+        rule: "generated schedules of frames and silences for 2-6 aircraft (and 'crowd' schedules with 15-40 aircraft): silences (millisecond resolution) drawn from {0, 1 s, d-2 s, d-1 s, d-0.6 s, d-0.35 s, d, d+1 ms, d+0.4 s, d+1 s, 2d, and the wrap points of 8/16/31/32-bit second and millisecond counters}, delete_after d in {1,5,60,600, 2^32, 2^33+5, i64::MAX/1000+1, i64::MAX}, every one of the nine formats as the refreshing frame, -U on/off, table hidden or displayed and redrawn at every frame, optional -f (excluded frames must neither refresh nor count). Maximal runs of frames are one reader run each; a silence is simulated by shifting every stored time stamp. History invariant after every segment: (i) heard < d whole seconds ago => row present; (ii) every aircraft heard in the segment has a last-contact stamp not older than the segment start; (iii) silent >= d, not heard in a segment with >= 12 accepted frames => absent afterwards; (iv) a row re-created after >= 12 accepted frames of the segment preceded the aircraft's first frame equals (wall-clock stamps excluded) the row the same frames create in an empty table; (v) row count <= aircraft heard within d + 12. Non-trivial = schedule with >= 1 expiry and >= 1 survival across a sweep; distinct by hash",
         assumptions: &["a sweep is only required after 12 accepted frames within one reader run (the sweep counter lives in the reader); segments with fewer accepted frames leave expiry unconstrained", "ages are bounded from both sides with the measured real time of each segment; an age that straddles the limit within that error is unconstrained; schedules whose real run time exceeds 0.9 s are discarded"],
         workers: 16,
         also_nochk: false,
@@ -45,13 +45,13 @@ fn addr_of(i: usize) -> u32 {
 }
 
 fn sched_strategy() -> BoxedStrategy<Sched> {
-    let d = prop_oneof![4 => Just(1i64), 4 => Just(5i64), 4 => Just(60i64), 4 => Just(600i64), 1 => Just(1i64 << 32), 1 => Just((1i64 << 33) + 5)];
-    (d, any::<bool>(), prop_oneof![3 => Just(None), 1 => proptest::sample::subsequence(vec![0u32, 4, 5, 11, 16, 17, 18, 20, 21], 1..6).prop_map(Some)], prop_oneof![4 => 2usize..=6, 1 => 15usize..=40])
+    let d = prop_oneof![4 => Just(1i64), 4 => Just(5i64), 4 => Just(60i64), 4 => Just(600i64), 1 => Just(1i64 << 32), 1 => Just((1i64 << 33) + 5), 1 => Just(i64::MAX), 1 => Just(i64::MAX / 1000 + 1)];
+    (d, (any::<bool>(), prop::bool::weighted(0.15)), prop_oneof![3 => Just(None), 1 => proptest::sample::subsequence(vec![0u32, 4, 5, 11, 16, 17, 18, 20, 21], 1..6).prop_map(Some)], prop_oneof![4 => 2usize..=6, 1 => 15usize..=40])
         .prop_flat_map(|(d, u, f, nac)| {
             // for the huge limits the silences are those of a 60 s limit: nothing may ever expire
             let dd = d;
             let d = if d > 1_000_000 { 60 } else { d };
-            let silence = proptest::sample::select(vec![0i64, 1000, (d - 2).max(0) * 1000, (d - 1).max(0) * 1000, d * 1000 - 350, d * 1000 - 600, d * 1000, d * 1000 + 1, d * 1000 + 400, (d + 1) * 1000, 2 * d * 1000]);
+            let silence = proptest::sample::select(vec![0i64, 1000, (d - 2).max(0) * 1000, (d - 1).max(0) * 1000, d * 1000 - 350, d * 1000 - 600, d * 1000, d * 1000 + 1, d * 1000 + 400, (d + 1) * 1000, 2 * d * 1000, 2 * d * 1000, 256_000, 65_536_000, 4_294_967_000, 4_294_968_000, (1i64 << 31) * 1000 + 500, (1i64 << 32) * 1000, ((1i64 << 32) + 1) * 1000]);
             let frame = (0..nac).prop_flat_map(|i| alphabet::frame_any(addr_of(i)).prop_map(move |f| Ev::F(addr_of(i), f)));
             // bursts of one chatty aircraft make sweeps happen
             let burst = (0..nac, 12usize..30).prop_flat_map(|(i, n)| proptest::collection::vec(alphabet::frame_any(addr_of(i)).prop_map(move |f| Ev::F(addr_of(i), f)), n..n + 1));
@@ -59,7 +59,11 @@ fn sched_strategy() -> BoxedStrategy<Sched> {
             let len = if nac > 6 { 20..60 } else { 4..40 };
             (Just(dd), Just(u), Just(f), proptest::collection::vec(ev, len))
         })
-        .prop_map(|(d, u, f, evs)| Sched { opts: Opts { d, u, f, ..Opts::default() }, evs: evs.into_iter().flatten().collect() })
+        .prop_map(|(d, (u, shown), f, evs)| {
+            // a share of the schedules runs with the table displayed and redrawn at every frame: sweeps must not depend on it
+            let (i, upd) = if shown { (vec!["aAews".to_string()], -1) } else { (vec!["Q".to_string()], 3) };
+            Sched { opts: Opts { d, u, f, i, upd, ..Opts::default() }, evs: evs.into_iter().flatten().collect() }
+        })
         .boxed()
 }
 
@@ -80,7 +84,7 @@ fn admitted(o: &Opts, f: &Frame) -> bool {
 pub fn check(s: &Sched, st: &mut Stats) -> Result<(), String> {
     let t = run::new_table();
     let d = s.opts.d;
-    let d_ms = d * 1000;
+    let d_ms = d.saturating_mul(1000);
     let mut now = 0i64; // virtual milliseconds added by silences
     // per aircraft: virtual time of the last accepted frame, and real instants bounding when it was processed
     let mut last_heard: BTreeMap<u32, (i64, std::time::Instant, std::time::Instant)> = BTreeMap::new();
@@ -189,7 +193,7 @@ pub fn check(s: &Sched, st: &mut Stats) -> Result<(), String> {
                 }
                 // (v)
                 if acc.len() >= 12 {
-                    let live = last_heard.iter().filter(|(a, th)| now - th.0 < d_ms + 1000 && !heard_now.contains(a)).count() + heard_now.len();
+                    let live = last_heard.iter().filter(|(a, th)| now - th.0 < d_ms.saturating_add(1000) && !heard_now.contains(a)).count() + heard_now.len();
                     if after.len() > live + 12 {
                         return Err(ctx(format!("table holds {} rows but only {} aircraft were heard within the last {} s", after.len(), live, d)));
                     }
@@ -225,6 +229,7 @@ fn run(c: &mut Ctx) {
                 c.class_n("expiries", st.expiries);
                 c.class(&format!("delete_after_{}", if s.opts.d > 1_000_000 { "2^32_or_more".to_string() } else { s.opts.d.to_string() }));
                 if s.opts.f.is_some() { c.class("with_filter"); }
+                if !s.opts.is_quiet() { c.class("table_displayed_every_frame"); }
                 if r.is_ok() && c.want_sample() && st.expiries >= 1 && s.evs.len() < 30 {
                     c.sample(json!({"opts": s.opts.label(), "events": s.evs.iter().map(|e| match e { Ev::F(a, f) => format!("{:06X} DF{} {}", a, f.df(), f.hex()), Ev::S(n) => format!("silence {} ms", n) }).collect::<Vec<_>>()}));
                 }
